@@ -46,7 +46,8 @@ fn backup_service_config_file(backup_folder: PathBuf) {
     }
 }
 
-fn copy_file(src_file: PathBuf, dst_file: PathBuf) {
+// returns whether the file was copied
+fn copy_file(src_file: PathBuf, dst_file: PathBuf) -> bool {
     if let Some(p) = dst_file.parent() {
         if let Err(e) = misc_helpers::try_create_folder(p) {
             logger::write(format!("Failed to create folder {:?}, error: {:?}", p, e));
@@ -55,12 +56,14 @@ fn copy_file(src_file: PathBuf, dst_file: PathBuf) {
     match fs::copy(&src_file, &dst_file) {
         Ok(_) => {
             logger::write(format!("Copied file {:?} to {:?}", src_file, dst_file));
+            true
         }
         Err(e) => {
             logger::write(format!(
                 "Failed to copy file {:?} to {:?}, error: {:?}",
                 src_file, dst_file, e
             ));
+            false
         }
     }
 }
@@ -84,11 +87,23 @@ pub fn backup_files() {
     let backup_folder = backup::proxy_agent_backup_package_folder();
     copy_file(PathBuf::from(CONFIG_PATH), backup_folder.join(CONFIG_FILE));
     copy_file(PathBuf::from(EBPF_PATH), backup_folder.join(EBPF_FILE));
-    copy_file(
-        running::proxy_agent_running_folder("").join("azure-proxy-agent"),
-        backup_folder.join("azure-proxy-agent"),
-    );
     backup_service_config_file(backup::proxy_agent_backup_folder());
+    // The backed up azure-proxy-agent is what `restore` takes as the sign that a backup exists
+    // (check_backup_exists in main.rs), so it is saved last and gets its final name only once it
+    // is complete: a backup that was interrupted part-way is never mistaken for a usable one.
+    let backup_agent_file = backup_folder.join("azure-proxy-agent");
+    let backup_agent_tmp_file = backup_folder.join("azure-proxy-agent.tmp");
+    if copy_file(
+        running::proxy_agent_running_folder("").join("azure-proxy-agent"),
+        backup_agent_tmp_file.clone(),
+    ) {
+        if let Err(e) = fs::rename(&backup_agent_tmp_file, &backup_agent_file) {
+            logger::write(format!(
+                "Failed to rename file {:?} to {:?}, error: {:?}",
+                backup_agent_tmp_file, backup_agent_file, e
+            ));
+        }
+    }
 }
 
 // copy azure-proxy-agent, proxy-agent.json, ebpf_cgroup.o to different destination folders
